@@ -97,9 +97,9 @@ class MetaRunner(object):
             # KeyboardInterrupt in a runner task immediately kills the event loop.
             # When we get resurrected, the exception has already been handled!
             # Just clean up...
-            await asyncio.shield(self._aclose_runners(runner_tasks))
+            await self._close_runners(runner_tasks)
         except BaseException:
-            await asyncio.shield(self._aclose_runners(runner_tasks))
+            await self._close_runners(runner_tasks)
             raise
         finally:
             self.running.clear()
@@ -133,6 +133,17 @@ class MetaRunner(object):
             runner_queues, self._runner_queues = self._runner_queues, {}
         for flavour, queue in runner_queues.items():
             self.register_payload(*queue, flavour=flavour)
+
+    async def _close_runners(self, runner_tasks):
+        """Close all runners for good, even if interrupted (cancelled) again meanwhile"""
+        closing = asyncio.ensure_future(self._aclose_runners(runner_tasks))
+        while not closing.done():
+            try:
+                await asyncio.shield(closing)
+            except asyncio.CancelledError:
+                # a further interrupt while closing: the close must still be seen through,
+                # payloads may need to be cancelled more than once
+                continue
 
     async def _aclose_runners(self, runner_tasks):
         for runner in self._runners.values():
